@@ -286,9 +286,14 @@ func checkC06(w *World, r *Recorder) propInfo {
 				}
 			case *ssa.MakeChan:
 				judgeSize(in, st, x.Size, "make chan size")
+			case *ssa.Call:
+				// library calls that allocate according to an integer argument
+				if idx, what := allocatingCall(x); idx >= 0 && idx < len(x.Call.Args) {
+					judgeSize(in, st, x.Call.Args[idx], what)
+				}
 			}
 		}
-		init := newState()
+		init := e.RootState()
 		assumeParams(e, fn, init)
 		paths := e.Run(fn, init, nil)
 		r.Count("engine_steps", e.steps)
@@ -329,6 +334,11 @@ func checkC06(w *World, r *Recorder) propInfo {
 					nMake++
 					_ = x
 				case *ssa.MakeMap:
+					nMake++
+				case *ssa.Call:
+					if idx, _ := allocatingCall(x); idx < 0 {
+						continue
+					}
 					nMake++
 				default:
 					continue
@@ -811,4 +821,25 @@ func consumerKind(w *World, c *ssa.Call, seen map[*ssa.Function]bool) string {
 		}
 	}
 	return kind
+}
+
+// allocatingCall: standard-library functions that reserve memory according to
+// an integer argument; returns the index of that argument (or -1).
+func allocatingCall(c *ssa.Call) (int, string) {
+	name := calleeName(&c.Call)
+	base := name
+	if i := strings.IndexByte(base, '['); i > 0 {
+		base = base[:i] // generic instantiation
+	}
+	switch base {
+	case "slices.Grow":
+		return 1, "slices.Grow capacity"
+	case "bytes.Repeat", "strings.Repeat":
+		return 1, base + " count"
+	case "(*bytes.Buffer).Grow", "(*strings.Builder).Grow":
+		return 1, base + " size"
+	case "slices.Repeat":
+		return 1, "slices.Repeat count"
+	}
+	return -1, ""
 }
